@@ -27,6 +27,11 @@ SHIPPED = [  # (glue, X, T) of the shipped curves (unit / pi square: 4 equal sid
     (0, [F(0), F(1)], [F(0), F(1)]),
     (1, [F(0), F(1), F(2), F(3), F(4)], [F(0), F(1, 2), F(1)]),
     (1, [F(0), F(1), F(3), F(5), F(6), F(7), F(8)], [F(0), F(1)]),   # L-shape before splitting: sides 1,2,2,1,1,1
+    # user-supplied initial time grids with slabs of different lengths (MeshParametrized(gamma, initial_time_mesh=...))
+    (1, [F(0), F(1), F(2), F(3), F(4)], [F(0), F(1, 4), F(1)]),
+    (1, [F(0), F(1), F(2), F(3), F(4)], [F(0), F(1, 4), F(1, 2), F(1)]),
+    (0, [F(0), F(1)], [F(0), F(1, 8), F(1)]),
+    (1, [F(i) for i in range(9)], [F(0), F(1, 2), F(3, 2)]),
 ]
 
 
